@@ -42,6 +42,8 @@ func checkC17(c *Ctx) {
 	c.Rule("C17-R10", "drawCell hands every combining rune GetContent returned to the encoder: the encodeRune call in the loop over the combining list is guarded by the loop alone, not by the charset's name or a flag of the screen")
 	c.Expect("C17-R10", 1)
 	c.Rule("C17-R9", "cell content reaches the charset encoder one rune at a time through encodeRune, called by drawCell only with the runes GetContent returned (the failure test - empty output or a leading SUB - is a test of one rune's output)")
+	c.Rule("C17-R11", "always occupying the cell's width: whether a wide cell is padded after a narrow substitute is decided by what happened to its main rune, never by a flag the combining runes' encoder calls can overwrite")
+	c.Expect("C17-R11", 1)
 	c.Expect("C17-R9", 3)
 	c.Rule("C17-R5", "the fallback map is consulted by direct lookup only and never copied after construction; it is seeded where it is made (before the application holds the screen) and afterwards changed one entry at a time by Register/Unregister only")
 	c.Rule("C17-R6", "RegisterEncoding and GetEncoding apply the same name normalisation under the registry lock; GetEncoding returns nil only when no fallback is configured")
@@ -57,6 +59,7 @@ func checkC17(c *Ctx) {
 		c.Undecided("C17-R1", "package tcell", "-", "not loaded")
 		return
 	}
+	checkWidePaddingFromMainRune(c, p, "C17-R11")
 	enc := p.Fn("tcell:(*tScreen).encodeRune")
 	can := p.Fn("tcell:(*tScreen).CanDisplay")
 	if enc == nil || can == nil {
